@@ -42,3 +42,61 @@ package service
 //@   ensures [range] typeof(r) == typeid(ptr_timestampRange) && as(ptr_timestampRange, r) != nil
 //@   ensures [normal] g == module.TransactionGroupNormal ==> as(ptr_timestampRange, r).min == int64(wc_bts(c)) - ((int64(wc_txth(c)) == 0) ? ConfigTXTimestampThresholdDefault : int64(wc_txth(c))) && as(ptr_timestampRange, r).max == int64(wc_bts(c)) + ((int64(wc_txth(c)) == 0) ? ConfigTXTimestampThresholdDefault : int64(wc_txth(c)))
 //@   ensures [patch] g != module.TransactionGroupNormal ==> as(ptr_timestampRange, r).min == int64(wc_bts(c)) - ConfigPatchTimestampThreshold && as(ptr_timestampRange, r).max == int64(wc_bts(c)) + ConfigPatchTimestampThreshold
+
+// ---------------------------------------------------------------------------
+// C10: block execution never silently drops a transaction
+// ---------------------------------------------------------------------------
+
+//@ property C10
+// the error latch shared by the workers: the first reported error sticks
+//@ func (c *executionContext) Report(e)
+//@   requires c != nil
+//@   modifies c.lastError
+//@   ensures [latch] old(c.lastError) == nil ==> c.lastError == e
+//@   ensures [sticky] old(c.lastError) != nil ==> c.lastError == old(c.lastError)
+
+//@ func (c *executionContext) Error() (r)
+//@   requires c != nil
+//@   pure
+//@   ensures r == c.lastError
+//@   opt ghost:tCheck ghost(clk) + 1
+//@   opt ghost:clk ghost(clk) + 1
+
+//@ func newExecutionContext(n) (ec)
+//@   trusted
+//@   ensures ec != nil && fresh(ec) && ec.lastError == nil
+//@ func (c *executionContext) Ready()
+//@   trusted
+//@   pure
+//@ func (c *executionContext) Done()
+//@   trusted
+//@   pure
+
+// Parallel mode. Goroutines are not modelled: a launch and the join are ghost events, and the
+// obligation is the local rule the property needs from the dispatcher: it reports success only
+// after consulting the latch later than the last launch and later than the join.
+//@ func (t *transition) executeTxsConcurrent(level, l, ctx, rctBuf) (err)
+//@   nosafety
+//@   modifies *
+//@   requires ghost(clk) == 0 && ghost(tSpawn) == 0 && ghost(tJoin) == 0 && ghost(tCheck) == 0 && ErrTransitionInterrupted != nil
+//@   opt go:tSpawn ghost(clk) + 1
+//@   opt go:clk ghost(clk) + 1
+//@   ensures [latch_consulted] err == nil && ghost(tSpawn) > 0 ==> ghost(tCheck) > ghost(tSpawn) && ghost(tCheck) > ghost(tJoin)
+//@   loop 0: invariant ec != nil
+//@   loop 0: invariant ghost(clk) >= 0
+//@   loop 0: invariant ghost(tSpawn) <= ghost(clk)
+//@   loop 0: invariant ghost(tCheck) <= ghost(clk)
+//@   loop 0: invariant ghost(tJoin) == 0
+
+// Sequential mode: when it reports success every transaction position of the list got a receipt,
+// written at its own index.
+//@ func (t *transition) executeTxsSequential(l, ctx, rctBuf) (err)
+//@   nosafety
+//@   modifies *
+//@   opt protect rctBuf[*]
+//@   requires ghost(it_pos) == 0 && ErrTransitionInterrupted != nil && l != nil
+//@   ensures [all_positions] err == nil ==> ghost(it_done) && (forall k int :: 0 <= k && k < ghost(it_pos) ==> rctBuf[k] != nil)
+//@   loop 0: invariant cnt == ghost(it_pos) && cnt >= 0
+//@   loop 0: invariant forall k int :: 0 <= k && k < cnt ==> rctBuf[k] != nil
+//@   loop 1: invariant cnt == ghost(it_pos) && cnt >= 0
+//@   loop 1: invariant forall k int :: 0 <= k && k < cnt ==> rctBuf[k] != nil
